@@ -4,7 +4,7 @@
 # usage: seedverify.sh <ID> <N>     writes /tmp/seedverify/<ID>-<N>.json
 ID="$1"; N="$2"
 OUT=/tmp/seed/$ID/${SEED_OUT:-out}
-WT=/tmp/seedverify/wt
+WT=${SEED_WT:-/tmp/seedverify/wt}
 RES=/tmp/seedverify/$ID-${SEED_OUT:-out}-$N.json
 mkdir -p /tmp/seedverify
 if [ ! -d "$WT" ]; then git -C /repo worktree add -q --detach "$WT" HEAD || exit 2; fi
